@@ -835,9 +835,9 @@ def run(tier):
     log(f"[c18] TLC-generated behaviours executed at {time.time() - t0:.0f}s")
     # 3. seeded random sequences of length <= 60, small and wide key range
     rng = random.Random(SEED)
-    n_rand = 2500 if quick else 60000
+    n_rand = 2500 if quick else 100000
     done = 0
-    budget = 150 if quick else 1500      # seconds for this phase; the count executed is reported
+    budget = 150 if quick else 1320      # seconds for this phase; the count executed is reported
     t_r = time.time()
     while done < n_rand and time.time() - t_r < budget:
         n = min(1250 if quick else 4000, n_rand - done)
